@@ -201,6 +201,9 @@ def history_strategy(tier):
                                                for M, lm in msgs)}
         if key is not None:
             c["key"] = key
+        for j, o in enumerate(("prs", "PK", "kdf", "nonce")):
+            if len(msgs[0][0]) >> j & 1:             # optional stages, each in half of the cases
+                c[o] = o.encode() + bytes(msgs[0][0][:j + 1])
         if tree:
             c.update({"Yl": 1, "Yf": 1, "Ym": 2})
             c["msgs"] = tuple((M or b"\\x00", "update" if lm == 8 else 8 * len(M) + 3 if lm == 9 and M else None) for M, lm in msgs)
